@@ -2,6 +2,12 @@ import QmiModel.Lemmas.C12
 import QmiModel.Lemmas.C12Conc
 import QmiModel.Lemmas.C12Calls
 import QmiModel.Lemmas.C12Race
+import QmiModel.Lemmas.C12MMa0
+import QmiModel.Lemmas.C12MMa1
+import QmiModel.Lemmas.C12MMa2
+import QmiModel.Lemmas.C12MMa3
+import QmiModel.Lemmas.C12MMa4
+import QmiModel.Lemmas.C12MMa5
 /-!
 # C12 — context lifecycle: unique names, clean failure, stop reclaims everything
 
@@ -703,6 +709,40 @@ theorem make_make_failed_ctor_all_schedules (sched : List Bool) :
       simp only [c2run, normSched, List.headD_cons, List.tail_cons]
       exact ih _ l.tail
   rw [norm]; exact mm_failed_ctor_table _ (normSched_mem 9 sched)
+
+/-- **`make ‖ make` of one name, every pair of kinds, with or without failing constructors.**  Two threads call
+`make_rpc_object` / `make_instrument` / `make_task` for the same name at the same time; each constructor may raise.
+Under every schedule (9 decisions cover both makers) both calls return, at most one of them with a proxy, the name is
+in the object map exactly when one did, no reservation (`None` entry) stays behind, every map entry has its manager
+and its handler, nothing was released — and when neither constructor raises, exactly one maker wins.
+(36 argument pairs × 512 schedules, kernel-checked in `Lemmas/C12MMa0 … a5`, lifted to all schedules by
+`c2run_norm`.) -/
+theorem make_make_any_kinds (k1 k2 : Kind) (cf1 cf2 : Bool) (sched : List Bool) :
+    (c2run (mmMk k1 cf1) (mmMk k2 cf2) (c2init raceCtx) sched 9).settled (mmMk k1 cf1) (mmMk k2 cf2) = true := by
+  have hc : raceCtx = mmCtx := rfl
+  rw [hc]
+  have h1 : mmTable (mmMk k1 cf1) = true := by
+    cases k1 <;> cases cf1
+    · exact mmTable_rpc_false
+    · exact mmTable_rpc_true
+    · exact mmTable_instr_false
+    · exact mmTable_instr_true
+    · exact mmTable_task_false
+    · exact mmTable_task_true
+  exact mmTable_all h1 (mem_mmSeconds k2 cf2) sched
+
+/-- the clause in words: with both constructors succeeding exactly one `ok`, with a failing one at most one -/
+theorem make_make_one_winner (k1 k2 : Kind) (sched : List Bool) :
+    okCount (c2run (mmMk k1 false) (mmMk k2 false) (c2init raceCtx) sched 9) = 1 := by
+  have h := make_make_any_kinds k1 k2 false false sched
+  simp only [C2State.settled, mmMk, Bool.or_self, Bool.false_or, Bool.and_eq_true, beq_iff_eq] at h
+  exact h.2
+
+/-- non-vacuity / both outcomes occur: the failing maker reserves first → the other is refused and nobody holds the name;
+the other maker runs first → it wins -/
+example : okCount (c2run (mmMk .task true) (mmMk .instr false) (c2init raceCtx) [true, false, false, true] 9) = 0 ∧
+    okCount (c2run (mmMk .task true) (mmMk .instr false) (c2init raceCtx) [false, false, false, false, false] 9) = 1 := by
+  decide
 
 /-- layer A's `make` *is* the sequential composition of the layer-C steps (the maker running alone) -/
 theorem make_is_sequential_composition (c : Ctx) (a : MakeArgs) :
